@@ -87,8 +87,7 @@ theorem visualizeGraph_wf (ν : Nums) (a : GraphArgs) (d : Drawing) (hν : SafeN
   split at h
   · simp at h
   rename_i text htext
-  simp only [Except.ok.injEq] at h
-  subst h
+  rw [writeFile_svg h]
   have hcs := getNodeColors_safe hν ha.nodeColor ha.labelColors hcolors
   obtain ⟨he1, he2⟩ := graphEdgeParts_inner hν a pos ha.edgeColor ha.labelColors hedges
   exact svgDoc_wf hν _ _ (Inner.append (Inner.flatMap_mem _ _ (fun c hc => svgMarker_inner (he1 c hc)))
@@ -149,8 +148,7 @@ theorem visualizeBigraph_wf (ν : Nums) (a : BigraphArgs) (d : Drawing) (hν : S
   split at h
   · simp at h
   rename_i textCol htc
-  simp only [Except.ok.injEq] at h
-  subst h
+  rw [writeFile_svg h]
   have h1 := getNodeColors_safe hν ha.colorRow ha.labelColors hrow
   have h2 := getNodeColors_safe hν ha.colorCol ha.labelColors hcol
   exact svgDoc_wf hν _ _ (Inner.append (bigraphEdges_inner hν a ha.edgeColor ha.labelColors hedges)
@@ -191,9 +189,9 @@ theorem visualizeDendrogram_wf (ν : Nums) (a : DendroArgs) (d : Drawing) (hν :
   split at hsvg
   · simp at hsvg
   rename_i paths hpaths
-  simp only [Except.ok.injEq] at hsvg h
+  simp only [Except.ok.injEq] at hsvg
   subst hsvg
-  subst h
+  rw [writeFile_svg h]
   exact svgDoc_wf hν _ _ (Inner.append (dendroNames_inner hν a index htext)
     (dendroTree_inner hν a ha.color ha.colors index hpaths))
 
@@ -236,9 +234,9 @@ theorem visualizeDendrogram_counts (ν : Nums) (a : DendroArgs) (d : Drawing) (h
   split at hsvg
   · simp at hsvg
   rename_i paths hpaths
-  simp only [Except.ok.injEq] at hsvg h
+  simp only [Except.ok.injEq] at hsvg
   subst hsvg
-  subst h
+  rw [writeFile_svg h]
   have hlen := getIndex_length a.merges a.reorder index hindex
   have hi : Inner (text ++ paths) := Inner.append (dendroNames_inner hν a index htext)
     (dendroTree_inner hν a ha.color ha.colors index hpaths)
@@ -248,11 +246,11 @@ theorem visualizeDendrogram_counts (ν : Nums) (a : DendroArgs) (d : Drawing) (h
     have ht : text = [] := dendroNames_none hn htext
     subst ht
     have := docMeets_svgDoc hν true false [] (fun _ hc => by simp at hc) hi (by simpa using hp)
-    simpa [writeFile, expectedDendrogram, hn, hlen] using this
+    simpa [expectedDendrogram, hn, hlen] using this
   | some names =>
     have hs := Shape.append (dendroNames_shape hn htext) hp
     have := docMeets_svgDoc hν true false [] (fun _ hc => by simp at hc) hi hs
-    simpa [writeFile, expectedDendrogram, hn, hlen, Summary.add, plainOf_displayed, Function.comp_def] using this
+    simpa [expectedDendrogram, hn, hlen, Summary.add, plainOf_displayed, Function.comp_def] using this
 
 /-- the inputs of `visualize_graph` the count statement is about: a membership matrix whose column indices are within
     its shape, non-negative stored weights, a canvas with a non-zero dimension and a non-zero scale, node indices of
@@ -331,18 +329,43 @@ example : BigraphDomain exampleBigraph :=
 
 /-! ## ★ `file_same` : the string written is the string returned -/
 
-/-- Whatever is drawn, the file `filename + '.svg'` receives exactly the returned string. -/
-theorem file_same (filename : PyStr) (svg : List Piece) :
-    (writeFile (some filename) svg).file = some (filename ++ py!".svg", render (writeFile (some filename) svg).svg) :=
-  rfl
+/-- Writing a lexically sound document never fails (`UnicodeEncodeError` cannot occur: every character is an XML
+    character), and the bytes put on disk, decoded as UTF-8 by a strict decoder, are the returned string. -/
+theorem file_same (f : PyStr) (doc : List Piece) (d : Drawing) (hlex : piecesLexOk doc = true)
+    (h : writeFile (some f) doc = .ok d) :
+    ∃ bytes, d.file = some (f ++ py!".svg", bytes) ∧ utf8Decode bytes = some (render d.svg) :=
+  writeFile_file hlex h
 
-theorem visualizeGraph_file_same (ν : Nums) (a : GraphArgs) (d : Drawing) (f : PyStr) (hf : a.filename = some f)
-    (h : visualizeGraph ν a = .ok d) : d.file = some (f ++ py!".svg", render d.svg) := by
-  unfold visualizeGraph at h
-  simp only [bind, Except.bind, pure, Except.pure] at h
-  repeat' split at h
-  all_goals first
-    | (simp at h; done)
-    | (simp only [Except.ok.injEq] at h; subst h; simp [writeFile, hf])
+/-- The strict UTF-8 decoder reads back what the encoder wrote, for every string. -/
+theorem utf8_decode_of_encode (s : PyStr) (bytes : List Nat) (h : utf8Encode s = some bytes) :
+    utf8Decode bytes = some s := utf8_roundtrip s bytes h
+
+example : utf8Encode [233, 0x4E2D, 0x1F600, 65] = some [0xC3, 0xA9, 0xE4, 0xB8, 0xAD, 0xF0, 0x9F, 0x98, 0x80, 65] := by
+  decide
+
+/-- `visualize_graph(…, filename=f)`: the file `f + '.svg'` holds the UTF-8 bytes of the returned string. -/
+theorem visualizeGraph_file_same (ν : Nums) (a : GraphArgs) (d : Drawing) (f : PyStr) (hν : SafeNums ν)
+    (ha : SafeGraphArgs a) (hf : a.filename = some f) (h : visualizeGraph ν a = .ok d) :
+    ∃ bytes, d.file = some (f ++ py!".svg", bytes) ∧ utf8Decode bytes = some (render d.svg) := by
+  obtain ⟨doc, hlex, hw⟩ := visualizeGraph_struct ν a d hν ha.nodeColor ha.edgeColor ha.labelColors h
+  rw [hf] at hw
+  exact writeFile_file hlex hw
+
+/-- `visualize_bigraph(…, filename=f)`: the file holds the UTF-8 bytes of the returned string. -/
+theorem visualizeBigraph_file_same (ν : Nums) (a : BigraphArgs) (d : Drawing) (f : PyStr) (hν : SafeNums ν)
+    (ha : SafeBigraphArgs a) (hf : a.filename = some f) (h : visualizeBigraph ν a = .ok d) :
+    ∃ bytes, d.file = some (f ++ py!".svg", bytes) ∧ utf8Decode bytes = some (render d.svg) := by
+  obtain ⟨doc, hlex, hw⟩ :=
+    visualizeBigraph_struct ν a d hν ha.colorRow ha.colorCol ha.edgeColor ha.labelColors h
+  rw [hf] at hw
+  exact writeFile_file hlex hw
+
+/-- `visualize_dendrogram(…, filename=f)`: the file holds the UTF-8 bytes of the returned string. -/
+theorem visualizeDendrogram_file_same (ν : Nums) (a : DendroArgs) (d : Drawing) (f : PyStr) (hν : SafeNums ν)
+    (ha : SafeDendroArgs a) (hf : a.filename = some f) (h : visualizeDendrogram ν a = .ok d) :
+    ∃ bytes, d.file = some (f ++ py!".svg", bytes) ∧ utf8Decode bytes = some (render d.svg) := by
+  obtain ⟨doc, hlex, hw⟩ := visualizeDendrogram_struct ν a d hν ha.color ha.colors h
+  rw [hf] at hw
+  exact writeFile_file hlex hw
 
 end SkNet.C20
